@@ -689,17 +689,19 @@ def check_expectation(eng, case, real):
     # the literal node evaluated; the whole statement (finalizer included) for every 8th case of the big
     # code-point sweeps and for every case of the other families
     EVALS[0] += 1
-    if case['fam'].startswith('cp-') and EVALS[0] % 8:
+    gate = zlib.crc32(text.encode('utf8', 'surrogatepass'))     # a fixed function of the text: replays and shrinking see the same
+    if case['fam'].startswith('cp-') and gate % 8 and not FORCE_ALL[0]:
         ev = ex(None, shared_context(), eng.engine)
     else:
         ev = st.evaluate(context=shared_context())
     for g, what in ((got, 'Constant.value'), (ev, 'evaluated value')):
         if type(g) is not type(val) or not (lexcfg.same_float(g, val) if isinstance(val, float) else g == val):
             return '%s is %s, the literal spells %s' % (what, short(g), short(val))
-    if kind != 'KEYWORD_STRING' and not (case['fam'].startswith('cp-') and EVALS[0] % 16):
+    if kind != 'KEYWORD_STRING' and (FORCE_ALL[0] or not (
+            (case['fam'].startswith('cp-') and gate % CP_GATE[0]) or (case['fam'] in ('str', 'raw') and gate % STR_GATE[0]))):
         # every form x every route for the short surrogate strings (all ordered pairs of halves are among them), one
         # (form, route) combination picked by a hash of the text for everything else
-        return check_returned(eng, case, val, everything=case['fam'] == 'surr-raw' or (
+        return check_returned(eng, case, val, everything=FORCE_ALL[0] or case['fam'] == 'surr-raw' or (
             case['fam'] == 'surr-str' and len(val) <= 2))
     return None
 
@@ -725,6 +727,9 @@ RETURN_FORMS = [('%s', lambda v: v), ('[%s]', lambda v: [v]), ('[[%s], %s]', lam
 # ... obtained through every public way a host gets a finished result
 RETURN_ROUTES = ['statement', 'copy', 'yaql.eval', 'interface']
 RETURNED = {}
+STR_GATE = [1]            # thorough (60000 strings x 3 styles): every 3rd
+CP_GATE = [16]            # of the code-point sweeps every 16th case (thorough: every 64th of 4 M) gets the returned-value check
+FORCE_ALL = [False]        # while shrinking a failing case and in replays: every form through every route
 
 
 def returned_value(eng, route, text):
@@ -991,8 +996,14 @@ class Runner:
                     if self.known_seen > 1:
                         continue
                 if 's' in c['src']:
-                    c = shrink_str(eng, c)
-                    msg = check_expectation(eng, c, lexcfg.real_lex(eng.engine, c['text']))
+                    FORCE_ALL[0] = True
+                    try:
+                        c2 = shrink_str(eng, c)
+                        msg2 = check_expectation(eng, c2, lexcfg.real_lex(eng.engine, c2['text']))
+                    finally:
+                        FORCE_ALL[0] = False
+                    if msg2:
+                        c, msg = c2, msg2
                 res.fail('oracle', key, '[%s] text %s: %s' % (c['fam'], short(c['text']), msg), replay_of(engs, c))
             elif c['exp'] is not None and c['fam'] in ('str', 'cp-raw', 'cp-embedded') and c['src'].get('style') == 'v' \
                     and verbatim_unspellable(lexcfg.uncps(c['src']['s'])):
@@ -1064,6 +1075,8 @@ class Runner:
 
 def run(env, res):
     tier = env['tier']
+    CP_GATE[0] = 16 if tier == 'quick' else 64
+    STR_GATE[0] = 1 if tier == 'quick' else 3
     rng = common.make_rng(env['seed'], 'C16')
     limit = sys.get_int_max_str_digits()
     hist = {}
@@ -1082,6 +1095,7 @@ def run(env, res):
             floatref.replay(env, res, rp)
             return res
         engs = [Eng(rp['engine'])]
+        FORCE_ALL[0] = True
         run_ = Runner(env, res, engs, rng)
         if rp['fam'] == 'next':
             run_.next_offsets([(0, lexcfg.uncps(rp['text']), rp['pos'])])
@@ -1143,7 +1157,10 @@ LEVEL_TEXT = ('Lean 4 theorems over an executable model of yaql/language/lexer.p
               'the code by running the compiled model and the real lexer+parser on every BMP code point, sampled astral ones, '
               'all escape shapes, biased strings, big integers, decimals, Unicode words, token soups under default/legacy/custom '
               'operator tables.')
-LEVEL_NOTE = ('partial where the runtime decides: Unicode classes, the \\N{} name table, int()/float() text conversion and the re '
+LEVEL_NOTE = ('round 5: the literal is also compared as the RESULT a host receives (alone and nested in lists / dictionaries incl. keys; '
+              'Statement.evaluate, copy, yaql.eval, YaqlInterface), model side C16Result.literal_result_fixed (output conversion is the '
+              'identity on literal values at every depth); strings with surrogate code points (lone, paired, runs) are real-code only. '
+              'partial where the runtime decides: Unicode classes, the \\N{} name table, int()/float() text conversion and the re '
               'engine are parameters of the model read from the running interpreter; the double of a float literal is computed by '
               'the model (proved correctly rounded) and compared bit for bit with the real Constant.value, with float(Fraction) / '
               'int/int division as the independent second derivation of the oracle. Known finding K2: strings with an odd backslash run before a back quote, a '
